@@ -407,6 +407,8 @@ package core
 //@     || (d.BodyCoords.file != nil && e.File == d.BodyCoords.file))
 //@ pred errIn(e *jerr.JApiError, d *directive.Directive) := e != nil && (e.File == d.keywordCoords.file || (d.BodyCoords.file != nil && e.File == d.BodyCoords.file))
 //@ pred handlerPre(core *JApiCore, d *directive.Directive) := core != nil && catalog.catShape(core.catalog) && directive.dirOK(d) && bodyOK(d)
+// a directive that is not allowed at the root has a parent (C11: processContext attaches it to an admitting context or fails)
+//@ pred parentOK(d *directive.Directive) := imp(!directive.rootSpec(d.type_), d.Parent != nil && directive.dirOK(d.Parent))
 //@ pred setterFailed(core *JApiCore, c0 *catalog.Catalog, n0 int) := core.catalog == c0 && c0.gFailed > n0
 
 //@ func description(b)
@@ -423,9 +425,8 @@ package core
 //@   keeps directive.Directive, fs.File, JApiCore
 //@   ensures core.catalog.gFailed == old(core.catalog.gFailed)
 //@ func (*JApiCore).addOperationID(core, d)
-//@   property C03
-//@   attr assumesafe
-//@   requires handlerPre(core, d) && core.uniqOperationID != nil
+//@   property C03,C01
+//@   requires handlerPre(core, d) && parentOK(d) && d.type_ == directive.OperationID && core.uniqOperationID != nil
 //@   modifies anything
 //@   keeps directive.Directive, fs.File
 //@   ensures[C03,@setter-error-reported] imp(setterFailed(core, old(core.catalog), old(core.catalog.gFailed)), result != nil)
@@ -435,9 +436,8 @@ package core
 //@   ensures[C03,C07,@error-at-directive] imp(result != nil, errAt(result, d))
 
 //@ func (*JApiCore).addDescription(core, d)
-//@   property C03
-//@   attr assumesafe
-//@   requires handlerPre(core, d) && catalog.catInv(core.catalog)
+//@   property C03,C01
+//@   requires handlerPre(core, d) && parentOK(d) && d.type_ == directive.Description && catalog.catInv(core.catalog)
 //@   requires[C01,@info-before-description] imp(d.Parent != nil && d.Parent.type_ == directive.Info, core.catalog.Info != nil)
 //@   modifies anything
 //@   keeps directive.Directive, fs.File
@@ -447,9 +447,8 @@ package core
 //@   ensures[C03,C07,@error-at-directive] imp(result != nil, errAt(result, d))
 
 //@ func (*JApiCore).addBaseUrl(core, d)
-//@   property C03
-//@   attr assumesafe
-//@   requires handlerPre(core, d) && catalog.catInv(core.catalog)
+//@   property C03,C01
+//@   requires handlerPre(core, d) && catalog.catInv(core.catalog) && parentOK(d) && d.type_ == directive.BaseURL
 //@   requires forall(k, string, imp(has(core.catalog.Servers.data, k), core.catalog.Servers.data[k] != nil))
 //@   modifies anything
 //@   keeps directive.Directive, fs.File
@@ -459,9 +458,8 @@ package core
 //@   ensures[C03,C07,@error-at-directive] imp(result != nil, errAt(result, d))
 
 //@ func (*JApiCore).addType(core, d)
-//@   property C03
-//@   attr assumesafe
-//@   requires handlerPre(core, d) && catalog.omUserTypesInv(core.catalog.UserTypes)
+//@   property C03,C01
+//@   requires handlerPre(core, d) && parentOK(d) && d.type_ == directive.Type && catalog.omUserTypesInv(core.catalog.UserTypes)
 //@   modifies anything
 //@   keeps directive.Directive, fs.File
 //@   ensures[C03,@setter-error-reported] imp(setterFailed(core, old(core.catalog), old(core.catalog.gFailed)), result != nil)
@@ -469,18 +467,16 @@ package core
 //@   ensures[C03,C07,@error-in-directive-file] imp(result != nil, errIn(result, d))
 
 //@ func (*JApiCore).addHTTPMethod(core, d)
-//@   property C03
-//@   attr assumesafe
-//@   requires handlerPre(core, d)
+//@   property C03,C01
+//@   requires handlerPre(core, d) && parentOK(d)
 //@   modifies anything
 //@   keeps directive.Directive, fs.File
 //@   ensures[C03,@setter-error-reported] imp(setterFailed(core, old(core.catalog), old(core.catalog.gFailed)), result != nil)
 //@   ensures[C03,C07,@error-in-directive-file] imp(result != nil, errIn(result, d))
 
 //@ func (*JApiCore).addQuery(core, d)
-//@   property C03
-//@   attr assumesafe
-//@   requires handlerPre(core, d)
+//@   property C03,C01
+//@   requires handlerPre(core, d) && parentOK(d) && d.type_ == directive.Query
 //@   modifies anything
 //@   keeps directive.Directive, fs.File
 //@   ensures[C03,@setter-error-reported] imp(setterFailed(core, old(core.catalog), old(core.catalog.gFailed)), result != nil)
@@ -489,9 +485,8 @@ package core
 //@   ensures[C03,C07,@error-at-directive] imp(result != nil, errAt(result, d))
 
 //@ func (*JApiCore).addResponse(core, d)
-//@   property C03
-//@   attr assumesafe
-//@   requires handlerPre(core, d)
+//@   property C03,C01
+//@   requires handlerPre(core, d) && parentOK(d)
 //@   modifies anything
 //@   keeps directive.Directive, fs.File
 //@   ensures[C03,@setter-error-reported] imp(setterFailed(core, old(core.catalog), old(core.catalog.gFailed)), result != nil)
@@ -499,9 +494,8 @@ package core
 //@   ensures[C03,C07,@error-in-directive-file] imp(result != nil, errIn(result, d))
 
 //@ func (*JApiCore).addHeaders(core, d)
-//@   property C03
-//@   attr assumesafe
-//@   requires handlerPre(core, d)
+//@   property C03,C01
+//@   requires handlerPre(core, d) && parentOK(d) && d.type_ == directive.Headers
 //@   modifies anything
 //@   keeps directive.Directive, fs.File
 //@   ensures[C03,@setter-error-reported] imp(setterFailed(core, old(core.catalog), old(core.catalog.gFailed)), result != nil)
@@ -510,9 +504,8 @@ package core
 //@   ensures[C03,C07,@error-at-directive] imp(result != nil, errAt(result, d))
 
 //@ func (*JApiCore).addProtocol(core, d)
-//@   property C03
-//@   attr assumesafe
-//@   requires handlerPre(core, d) && core.onlyOneProtocolIntoURL != nil
+//@   property C03,C01
+//@   requires handlerPre(core, d) && parentOK(d) && d.type_ == directive.Protocol && core.onlyOneProtocolIntoURL != nil
 //@   modifies anything
 //@   keeps directive.Directive, fs.File
 //@   ensures[C03,@forbidden-annotation] imp(d.Annotation != "", atKeyword(result, d))
@@ -522,9 +515,8 @@ package core
 //@   ensures[C03,C07,@error-at-directive] imp(result != nil, errAt(result, d))
 
 //@ func (*JApiCore).addJsonRpcMethod(core, d)
-//@   property C03
-//@   attr assumesafe
-//@   requires handlerPre(core, d)
+//@   property C03,C01
+//@   requires handlerPre(core, d) && parentOK(d) && d.type_ == directive.Method && dirsOK(d.Parent.Children)
 //@   modifies anything
 //@   keeps directive.Directive, fs.File
 //@   ensures[C03,@setter-error-reported] imp(setterFailed(core, old(core.catalog), old(core.catalog.gFailed)), result != nil)
@@ -532,9 +524,8 @@ package core
 //@   ensures[C03,C07,@error-in-directive-file] imp(result != nil, errIn(result, d))
 
 //@ func (*JApiCore).addInfo(core, d)
-//@   property C03
-//@   attr assumesafe
-//@   requires handlerPre(core, d)
+//@   property C03,C01
+//@   requires handlerPre(core, d) && parentOK(d) && d.type_ == directive.Info
 //@   modifies anything
 //@   keeps directive.Directive, fs.File
 //@   ensures[C03,@setter-error-reported] imp(setterFailed(core, old(core.catalog), old(core.catalog.gFailed)), result != nil)
@@ -547,27 +538,24 @@ package core
 //@   modifies nothing
 //@   ensures imp(result != nil, result.File != nil)
 //@ func (*JApiCore).addURL(core, d)
-//@   property C03
-//@   attr assumesafe
-//@   requires handlerPre(core, d) && core.uniqURLPath != nil
+//@   property C03,C01
+//@   requires handlerPre(core, d) && parentOK(d) && d.type_ == directive.URL && core.uniqURLPath != nil
 //@   modifies anything
 //@   keeps directive.Directive, fs.File
 //@   ensures[C03,@forbidden-annotation] imp(d.Annotation != "", atKeyword(result, d))
 
 // Body dispatches on its parent; a parameter on the parent is reported at the parent (the construct at fault)
 //@ func (*JApiCore).addBody(core, d)
-//@   property C03
-//@   attr assumesafe
-//@   requires handlerPre(core, d) && d.Parent != nil && directive.dirOK(d.Parent)
+//@   property C03,C01
+//@   requires handlerPre(core, d) && parentOK(d) && d.type_ == directive.Body && d.Parent != nil && directive.dirOK(d.Parent)
 //@   modifies anything
 //@   keeps directive.Directive, fs.File
 //@   ensures[C03,@setter-error-reported] imp(setterFailed(core, old(core.catalog), old(core.catalog.gFailed)), result != nil)
 //@   ensures[C03,C07,@error-in-directive-file] imp(result != nil, errIn(result, d) || atKeyword(result, d.Parent))
 
 //@ func (*JApiCore).addJsonRpcParams(core, d)
-//@   property C03
-//@   attr assumesafe
-//@   requires handlerPre(core, d)
+//@   property C03,C01
+//@   requires handlerPre(core, d) && parentOK(d) && d.type_ == directive.Params
 //@   modifies anything
 //@   keeps directive.Directive, fs.File
 //@   ensures[C03,@setter-error-reported] imp(setterFailed(core, old(core.catalog), old(core.catalog.gFailed)), result != nil)
@@ -576,9 +564,8 @@ package core
 //@   ensures[C03,C07,@error-at-directive] imp(result != nil, errAt(result, d))
 
 //@ func (*JApiCore).addJsonRpcResult(core, d)
-//@   property C03
-//@   attr assumesafe
-//@   requires handlerPre(core, d)
+//@   property C03,C01
+//@   requires handlerPre(core, d) && parentOK(d) && d.type_ == directive.Result
 //@   modifies anything
 //@   keeps directive.Directive, fs.File
 //@   ensures[C03,@setter-error-reported] imp(setterFailed(core, old(core.catalog), old(core.catalog.gFailed)), result != nil)
